@@ -9,13 +9,16 @@ Case line (kind A), fields separated by '|':
            kinds: c plain class, a abc.ABC, h HasTraits, i Interface, b ABCHasTraits, o builtin object, n NoneType;
            awkward VALUES (the search only sees the type; the value matters to everything around it, e.g. the
            error message): T S B D L = builtin tuple / str / bytes / dict / list, t = tuple subclass, k / j =
-           namedtuple with 2 / 0 fields, s = str subclass, r / q = class whose __repr__ raises / returns a non-str
+           namedtuple with 2 / 0 fields, s = str subclass, r / q = class whose __repr__ raises / returns a non-str,
+           I = builtin int (0 / 7), z = plain class with __bool__ False, y = HasTraits subclass with __len__ 0
            a source token `3~2` = instance flavour 2 of type 3 (length / content, see Hier.instance)
            a<c  = types[a].register(types[c])   (ABC registration / what @provides does)
   P        issubclass matrix over universe + hidden MRO classes, rows ','-separated bit strings
   M        inspect.getmro(t)[1:] per type as indices, ';'-separated, '-' = empty
   offers   id:from:to:key:kind ; ...  (registration order; the same id twice = the same offer object registered twice)
-           kind n register_offer, f register_factory, p identity factory, l lazily named protocols
+           kind n register_offer, f register_factory, p identity factory, l lazily named protocols;
+           z / e / g = like n but the factory's adapters are alive and FALSY (__bool__ False / __len__ 0 / an empty
+           dict subclass): a falsy adapter is a successful adaptation, only None declines
   ftab     oid@prov=n|r ; #k=n|r ; ...   ('-' = empty)
   queries  a s t | d s t | s s t | m t p | t <I|S|A> <mode> <allowNone> s t
 """
@@ -39,7 +42,7 @@ class Hier:
         tpart, _, rpart = spec.partition("/")
         assert tpart.startswith("T=")
         roots = {"c": object, "a": abc.ABC, "h": HasTraits, "i": Interface, "b": ABCHasTraits,
-                 "t": tuple, "s": str, "r": object, "q": object}
+                 "t": tuple, "s": str, "r": object, "q": object, "z": object, "y": HasTraits}
         self.types = []
         self.kinds = []
         self.names = []
@@ -77,6 +80,8 @@ class Hier:
             root = roots[kind]
             if kind in "tsrq":
                 self.notes.add("awkward-value-type")
+            if kind in "zy":
+                self.notes.add("falsy-adaptee-type")
             cls = None
             while cls is None:
                 bb = list(bases)
@@ -88,6 +93,10 @@ class Hier:
                         body["__repr__"] = _raising_repr
                     elif kind == "q":
                         body["__repr__"] = _nonstr_repr
+                    elif kind == "z":
+                        body["__bool__"] = _false_bool
+                    elif kind == "y":
+                        body["__len__"] = _zero_len
                     cls = _types.new_class(name, tuple(bb), {}, lambda ns, body=body: ns.update(body))
                 except TypeError:
                     # MRO / metaclass / layout conflict: drop the last base and retry (deterministic)
@@ -187,7 +196,9 @@ class Hier:
         if k == "j":
             return cls()
         if k in "Ss":
-            return cls(["100%", "%s %d", "%(x)s", "plain"][flavour % 4])
+            return cls(["100%", "%s %d", "%(x)s", "plain", ""][flavour % 5])
+        if k == "I":
+            return [0, 7][flavour % 2]
         if k == "B":
             return [b"%s%%", b"", b"%d"][flavour % 3]
         if k == "D":
@@ -197,8 +208,9 @@ class Hier:
         return cls()
 
 
-BUILTIN_KINDS = {"T": tuple, "S": str, "B": bytes, "D": dict, "L": list}
-AWKWARD_KINDS = "TSBDLtkjsrq"
+BUILTIN_KINDS = {"T": tuple, "S": str, "B": bytes, "D": dict, "L": list, "I": int}
+AWKWARD_KINDS = "TSBDLItkjsrqzy"
+FALSY_TYPE_KINDS = "zy"
 BAD_REPR_KINDS = "rq"
 
 
@@ -210,6 +222,14 @@ def _nonstr_repr(self):
     return 42
 
 
+def _false_bool(self):
+    return False
+
+
+def _zero_len(self):
+    return 0
+
+
 def parse_src(tok):
     """`3` / `3n` / `3~2` -> (type index, is the object None, flavour)."""
     tok, _, fl = tok.partition("~")
@@ -219,7 +239,7 @@ def parse_src(tok):
 def value_kind(hier, t, is_none):
     if is_none:
         return "None"
-    return {"T": "tuple", "t": "tuple-subclass", "k": "namedtuple", "j": "namedtuple", "S": "str", "s": "str-subclass",
+    return {"I": "int", "z": "falsy-object", "y": "falsy-object", "T": "tuple", "t": "tuple-subclass", "k": "namedtuple", "j": "namedtuple", "S": "str", "s": "str-subclass",
             "B": "bytes", "D": "dict", "L": "list", "r": "repr-raises", "q": "repr-not-str"}.get(hier.kinds[t], "plain")
 
 
@@ -234,6 +254,36 @@ class Ad(object):
         self.step = step
 
 
+class FalsyAd(Ad):
+    """An adapter that is alive and falsy."""
+    __slots__ = ()
+
+    def __bool__(self):
+        return False
+
+
+class EmptyAd(Ad):
+    """An adapter with __len__ 0."""
+    __slots__ = ()
+
+    def __len__(self):
+        return 0
+
+
+class DictAd(dict):
+    """An adapter that is an empty container (dict subclass)."""
+
+    def __init__(self, prov, root=None, step=None):
+        dict.__init__(self)
+        self.prov = prov
+        self.root = root
+        self.step = step
+
+
+ADS = (Ad, DictAd)
+AD_CLASS = {"z": FalsyAd, "e": EmptyAd, "g": DictAd}
+FALSY_OFFER_KINDS = "zeg"
+
 CUR_STEP = [None]
 
 
@@ -242,6 +292,10 @@ class Default(object):
 
     def __init__(self):
         self.step = CUR_STEP[0]
+
+    def __bool__(self):
+        # a default (the `default` argument, a trait's default value) is handed back as it is, falsy or not
+        return False
 
 
 class FactoryError(ValueError):
@@ -279,8 +333,9 @@ class Ctx:
             return ()
         return obj.prov
 
-    def make_factory(self, oid, ident):
+    def make_factory(self, oid, ident, kind="n"):
         ctx = self
+        adcls = AD_CLASS.get(kind, Ad)
 
         def factory(adaptee):
             prov = ctx.prov_of(adaptee)
@@ -296,7 +351,7 @@ class Ctx:
                 ctx.log.append((oid, "!", prov))
                 raise FactoryError("factory raises")
             ctx.log.append((oid, "+", prov))
-            return adaptee if ident else Ad(prov + (oid,), ctx.root, ctx.step)
+            return adaptee if ident else adcls(prov + (oid,), ctx.root, ctx.step)
         return factory
 
     def show_log(self):
@@ -337,15 +392,15 @@ def register_one(m, hier, offer, ctx, objs, info):
     ident = kind == "p"
     info.setdefault(i, (F, T, ident))
     if kind in ("f", "p") and i not in objs:
-        m.register_factory(ctx.make_factory(i, ident), F, T)
+        m.register_factory(ctx.make_factory(i, ident, kind), F, T)
         objs[i] = True
         return
     if i not in objs or objs[i] is True:
         if kind == "l":
-            objs[i] = AdaptationOffer(factory=ctx.make_factory(i, ident),
+            objs[i] = AdaptationOffer(factory=ctx.make_factory(i, ident, kind),
                                       from_protocol=hier.names[f], to_protocol=hier.names[t])
         else:
-            objs[i] = AdaptationOffer(factory=ctx.make_factory(i, ident), from_protocol=F, to_protocol=T)
+            objs[i] = AdaptationOffer(factory=ctx.make_factory(i, ident, kind), from_protocol=F, to_protocol=T)
     m.register_offer(objs[i])
 
 
@@ -432,6 +487,23 @@ def chain_valid(chain, src_type, target, info):
 # generators
 # --------------------------------------------------------------------------
 
+def falsify(rng, offers, share=0.3):
+    """Replay-stable switch: a share of the ordinary offers (kind n, on the line as z / e / g) build adapters that
+    are alive but falsy."""
+    out = []
+    seen = {}
+    for o in offers:
+        if o[0] in seen:
+            out.append(seen[o[0]])
+            continue
+        o2 = o
+        if o[4] == "n" and rng.random() < share:
+            o2 = o[:4] + (rng.choice(FALSY_OFFER_KINDS),)
+        seen[o[0]] = o2
+        out.append(o2)
+    return out
+
+
 def random_spec(rng, nmax=6, family=None):
     n = rng.randint(1, nmax)
     family = family or rng.choice(["plain", "plain", "abc", "abc", "traits", "mixed"])
@@ -446,6 +518,9 @@ def random_spec(rng, nmax=6, family=None):
             ts.append("n")
             continue
         kind = rng.choice(kinds_by_family[family])
+        if rng.random() < 0.12:
+            # instances alive but falsy (__bool__ False / HasTraits with __len__ 0)
+            kind = {"c": "z", "h": "y"}.get(kind, kind)
         nb = rng.choice([0, 0, 1, 1, 1, 2, 2, 3]) if i else 0
         cand = [j for j in range(i) if ts[j][0] not in "on"]
         bases = rng.sample(cand, min(nb, len(cand)))
@@ -620,7 +695,7 @@ def random_case(rng, nmax=6, kmax=8, ordinal=False, collide=False):
             hier = Hier(spec)
         except TypeError:
             continue
-        offers = random_offers(rng, hier, kmax, lazy_ok=not collide)
+        offers = falsify(rng, random_offers(rng, hier, kmax, lazy_ok=not collide))
         info = info_of(hier, offers)
         queries = random_queries(rng, hier)
         if too_big(hier, offers, queries):
@@ -669,7 +744,7 @@ def random_chain_case(rng):
             offers.append((nid, a, b, hier.key_of(a), "n"))
             nid += 1
         rng.shuffle(offers)
-        offers = offers[:8]
+        offers = falsify(rng, offers[:8])
         info = info_of(hier, offers)
         queries = []
         for _ in range(rng.choice([2, 3, 4])):
@@ -722,7 +797,7 @@ def random_specific_case(rng):
                 offers.append((nid, i, tgt, hier.key_of(i), "n"))
                 nid += 1
         rng.shuffle(offers)
-        offers = offers[:8]
+        offers = falsify(rng, offers[:8])
         ft = {}
         for o in offers:
             if rng.random() < 0.2:
@@ -738,7 +813,7 @@ def random_awkward_case(rng):
     FAIL without a default (the path that builds the error message), through the manager and through the
     module-level functions; the search itself only sees their types."""
     for _ in range(50):
-        kinds = rng.sample(list("TSBDLtkjsrq"), rng.randint(1, 4))
+        kinds = rng.sample(list("TSBDLItkjsrqzy"), rng.randint(1, 4))
         ts = []
         for kd in kinds:
             i = len(ts)
@@ -759,7 +834,7 @@ def random_awkward_case(rng):
         offers = []
         for nid in range(rng.choice([0, 0, 1, 2, 3])):
             f, t = rng.randrange(n), rng.randrange(n)
-            offers.append((nid, f, t, hier.key_of(f), rng.choice("nnf")))
+            offers.append((nid, f, t, hier.key_of(f), rng.choice("nnfzeg")))
         ft = {}
         for o in offers:
             if rng.random() < 0.3:
@@ -768,7 +843,7 @@ def random_awkward_case(rng):
         for _ in range(rng.randint(3, 7)):
             s_ = rng.randrange(len(kinds)) if rng.random() < 0.85 else rng.randrange(n)
             t_ = rng.randrange(n)
-            tok = "%d~%d" % (s_, rng.randrange(4))
+            tok = "%d~%d" % (s_, rng.randrange(5))
             bad = hier.kinds[s_] in BAD_REPR_KINDS
             r = rng.random()
             if bad:
@@ -792,15 +867,18 @@ def random_awkward_case(rng):
 def awkward_sweep():
     """Every awkward kind x every flavour x every call style, no offers (so every adaptation of a
     non-provided protocol fails), plus one offer that makes it succeed."""
-    for kd in "TSBDLtkjs":
+    for kd in "TSBDLItkjszy":
         spec = "T=%s;c1:" % (kd if kd in BUILTIN_KINDS else kd + "0:")
         hier = Hier(spec)
-        for offers in ([], [(0, 0, 1, 0, "n")]):
+        for offers in ([], [(0, 0, 1, 0, "n")], [(0, 0, 1, 0, "z")], [(0, 0, 1, 0, "e"), (1, 0, 1, 0, "p")],
+                       [(0, 0, 1, 0, "p")], [(0, 0, 0, 0, "g"), (1, 0, 1, 0, "g")]):
             qs = []
-            for fl in range(4):
+            for fl in range(5):
                 for call in ("a", "ga", "d", "gd", "s", "gs"):
                     qs.append("%s 0~%d 1" % (call, fl))
                 qs.append("t S 1 1 0~%d 1" % fl)
+                qs.append("t A 1 0 0~%d 1" % fl)
+                qs.append("t I 2 1 0~%d 1" % fl)
                 qs.append("a 0~%d 0" % fl)
             yield make_line(hier, offers, {}, qs)
     for kd in "rq":
@@ -839,6 +917,7 @@ def random_late_case(rng):
             t = rng.randrange(n)
             offers.append((nid, f, t, hier.key_of(f), rng.choice("nnnnfp")))
             nid += 1
+        offers = falsify(rng, offers)
         info = info_of(hier, offers)
         base = []
         for _ in range(rng.choice([2, 3, 4])):
@@ -898,7 +977,10 @@ def random_history_case(rng):
             ts.append("%s%d:%s" % (kind, i, ",".join(map(str, bases))))
         src, tgt, mid = k, k + 1, k + 2
         sb = rng.sample(range(k), min(k, rng.choice([0, 1, 1, 2]))) if fam != "i" else []
-        ts.append("%s%d:%s" % ("h" if fam == "i" else "c", src, ",".join(map(str, sb))))
+        skind = "h" if fam == "i" else "c"
+        if rng.random() < 0.25:
+            skind = {"h": "y", "c": "z"}[skind]       # the assigned object is alive but falsy
+        ts.append("%s%d:%s" % (skind, src, ",".join(map(str, sb))))
         ts.append("c%d:" % tgt)
         ts.append("c%d:" % mid)
         regs = ["%d<%d" % (i, src) for i in range(k) if i not in sb and ts[i][0] in "ai" and rng.random() < 0.8]
@@ -918,6 +1000,7 @@ def random_history_case(rng):
         cand.append((nid, mid, tgt, hier.key_of(mid), "n"))
         nid += 1
         rng.shuffle(cand)
+        cand = falsify(rng, cand)
         n0 = rng.randint(1, max(1, len(cand) - 1))
         offers, later = cand[:n0], cand[n0:]
         ft = {}
